@@ -1390,6 +1390,734 @@ pub mod order {
 }
 
 //============================================================================
+// C05: EDNS options built through their constructors and the OPT builders
+//============================================================================
+
+pub mod optbuild {
+    use super::*;
+    use domain::base::iana::{ExtendedErrorCode, SecurityAlgorithm};
+    use domain::base::name::Name;
+    use domain::base::net::{IpAddr, Ipv4Addr, Ipv6Addr};
+    use domain::base::opt::cookie::{ClientCookie, ServerCookie, StandardServerCookie};
+    use domain::base::opt::keepalive::IdleTimeout;
+    use domain::base::opt::{
+        AllOptData, Chain, ClientSubnet, ComposeOptData, Cookie, Dau, Dhu, Expire,
+        ExtendedError, KeyTag, N3u, Nsid, Opt, OptData, OptRecord, Padding, TcpKeepalive,
+    };
+    use domain::base::Serial;
+    use octseq::str::Str;
+    use std::panic::{catch_unwind, AssertUnwindSafe};
+    use std::time::Duration;
+    use verif_harness::common::bytes_of;
+
+    pub type V = AllOptData<Vec<u8>, Name<Vec<u8>>>;
+    pub const KINDS: [&str; 12] = [
+        "NSID", "DAU", "DHU", "N3U", "ECS", "EXPIRE", "COOKIE", "KEEPALIVE", "PADDING", "CHAIN",
+        "KEYTAG", "EDE",
+    ];
+
+    /// What the accessors of an option value show.
+    pub fn view<O: AsRef<[u8]>, N: ToName>(v: &AllOptData<O, N>, issues: &mut Vec<String>) -> Value {
+        match v {
+            AllOptData::Nsid(x) => json!({"o": "NSID", "data": x.as_slice()}),
+            AllOptData::Padding(x) => json!({"o": "PADDING", "data": x.as_slice()}),
+            AllOptData::Dau(x) => {
+                let algs: Vec<u8> = x.iter().map(|a| a.to_int()).collect();
+                if algs != x.as_slice() {
+                    issues.push("DAU: iter() differs from the octets".into());
+                }
+                json!({"o": "DAU", "algs": algs})
+            }
+            AllOptData::Dhu(x) => {
+                let algs: Vec<u8> = x.into_iter().map(|a| a.to_int()).collect();
+                if algs != x.as_slice() {
+                    issues.push("DHU: iter() differs from the octets".into());
+                }
+                json!({"o": "DHU", "algs": algs})
+            }
+            AllOptData::N3u(x) => {
+                let algs: Vec<u8> = x.iter().map(|a| a.to_int()).collect();
+                if algs != x.for_slice().as_slice() {
+                    issues.push("N3U: iter() differs from the octets".into());
+                }
+                json!({"o": "N3U", "algs": algs})
+            }
+            AllOptData::ClientSubnet(x) => {
+                let (fam, addr) = match x.addr() {
+                    IpAddr::V4(a) => (1, a.octets().to_vec()),
+                    IpAddr::V6(a) => (2, a.octets().to_vec()),
+                };
+                json!({"o": "ECS", "fam": fam, "src": x.source_prefix_len(),
+                       "scope": x.scope_prefix_len(), "addr": addr})
+            }
+            AllOptData::Expire(x) => json!({"o": "EXPIRE", "some": x.expire().is_some(),
+                       "secs": x.expire().unwrap_or(0).to_be_bytes()}),
+            AllOptData::Cookie(x) => {
+                let server: Vec<u8> = x.server().map(|s| s.as_ref().to_vec()).unwrap_or_default();
+                if let Some(s) = x.server() {
+                    if usize::from(s.compose_len()) != server.len() {
+                        issues.push("COOKIE: ServerCookie::compose_len differs from its octets".into());
+                    }
+                    match s.try_to_standard() {
+                        Some(std) => {
+                            let mut back = vec![std.version()];
+                            back.extend_from_slice(&std.reserved());
+                            back.extend_from_slice(&std.timestamp().into_int().to_be_bytes());
+                            back.extend_from_slice(&std.hash());
+                            if server.len() != 16 || back != server {
+                                issues.push("COOKIE: try_to_standard shows other octets".into());
+                            }
+                        }
+                        None => {
+                            if server.len() == 16 {
+                                issues.push("COOKIE: 16-octet server cookie is not standard".into());
+                            }
+                        }
+                    }
+                }
+                json!({"o": "COOKIE", "client": x.client().into_octets(),
+                       "some": x.server().is_some(), "server": server})
+            }
+            AllOptData::TcpKeepalive(x) => {
+                let t = x.timeout().map(u16::from).unwrap_or(0);
+                if let Some(to) = x.timeout() {
+                    if Duration::from(to) != Duration::from_millis(u64::from(t) * 100) {
+                        issues.push("KEEPALIVE: Duration::from(IdleTimeout) is not t * 100 ms".into());
+                    }
+                }
+                json!({"o": "KEEPALIVE", "some": x.timeout().is_some(), "t": t})
+            }
+            AllOptData::Chain(x) => {
+                let mut w = Vec::new();
+                x.start().compose(&mut w).unwrap();
+                json!({"o": "CHAIN", "name": w})
+            }
+            AllOptData::KeyTag(x) => {
+                let tags: Vec<u16> = x.iter().collect();
+                let again: Vec<u16> = x.into_iter().collect();
+                if tags != again || tags.len() * 2 != x.as_slice().len() {
+                    issues.push("KEYTAG: iterators disagree with the octets".into());
+                }
+                json!({"o": "KEYTAG", "tags": tags})
+            }
+            AllOptData::ExtendedError(x) => {
+                let text = x.text_slice().unwrap_or(&[]).to_vec();
+                match x.text() {
+                    None => {}
+                    Some(Ok(s)) => {
+                        if s.as_slice() != &text[..] {
+                            issues.push("EDE: text() differs from text_slice()".into());
+                        }
+                    }
+                    Some(Err(_)) => {
+                        if std::str::from_utf8(&text).is_ok() {
+                            issues.push("EDE: UTF-8 text reported as not UTF-8".into());
+                        }
+                    }
+                }
+                if x.is_private() != (x.code().to_int() >= 49152) {
+                    issues.push("EDE: is_private() disagrees with the code".into());
+                }
+                json!({"o": "EDE", "code": x.code().to_int(), "text": text})
+            }
+            AllOptData::Other(x) => json!({"o": "OTHER", "code": x.code().to_int(), "data": x.as_slice()}),
+            _ => json!({"o": "?"}),
+        }
+    }
+
+    fn data_of<T: ComposeOptData + ?Sized>(t: &T) -> (Vec<u8>, u16) {
+        let mut v = Vec::new();
+        t.compose_option(&mut v).unwrap();
+        (v, t.compose_len())
+    }
+
+    fn guarded<T>(f: impl FnOnce() -> Option<T>) -> Option<T> {
+        catch_unwind(AssertUnwindSafe(f)).unwrap_or(None)
+    }
+
+    fn algs_of(a: &Value) -> Vec<SecurityAlgorithm> {
+        bytes_of(&a["algs"]).into_iter().map(SecurityAlgorithm::from_int).collect()
+    }
+
+    fn addr_of(a: &Value) -> IpAddr {
+        let o = bytes_of(&a["addr"]);
+        if a["fam"].as_u64() == Some(1) {
+            let mut b = [0u8; 4];
+            b.copy_from_slice(&o);
+            IpAddr::V4(Ipv4Addr::from(b))
+        } else {
+            let mut b = [0u8; 16];
+            b.copy_from_slice(&o);
+            IpAddr::V6(Ipv6Addr::from(b))
+        }
+    }
+
+    fn u8_of(v: &Value) -> u8 {
+        v.as_u64().unwrap() as u8
+    }
+
+    fn name_of(a: &Value) -> Name<Vec<u8>> {
+        let mut w = vec![];
+        for l in a["name"].as_array().unwrap() {
+            let l = bytes_of(l);
+            w.push(l.len() as u8);
+            w.extend_from_slice(&l);
+        }
+        w.push(0);
+        Name::from_octets(w).unwrap()
+    }
+
+    fn utf8(a: &Value) -> Str<Vec<u8>> {
+        Str::from_utf8(bytes_of(&a["text"])).expect("case texts are UTF-8")
+    }
+
+    /// Every public way to construct the value the arguments describe;
+    /// `None` = the constructor refuses (error result or documented panic).
+    pub fn constructions(a: &Value) -> Vec<(&'static str, Option<V>)> {
+        let mut out: Vec<(&'static str, Option<V>)> = vec![];
+        let o = a["o"].as_str().unwrap_or("");
+        match o {
+            "NSID" => {
+                let d = bytes_of(&a["data"]);
+                out.push(("Nsid::from_octets", Nsid::from_octets(d.clone()).ok().map(V::Nsid)));
+                out.push(("Nsid::from_slice", Nsid::from_slice(&d).ok()
+                    .map(|n| V::Nsid(Nsid::from_octets(n.as_slice().to_vec()).unwrap()))));
+                if d.is_empty() {
+                    out.push(("Nsid::empty", Some(V::Nsid(Nsid::from_octets(Nsid::empty().as_slice().to_vec()).unwrap()))));
+                }
+            }
+            "PADDING" => {
+                let d = bytes_of(&a["data"]);
+                out.push(("Padding::from_octets", Padding::from_octets(d).ok().map(V::Padding)));
+            }
+            "DAU" => {
+                let algs = algs_of(a);
+                let d = bytes_of(&a["algs"]);
+                out.push(("Dau::from_sec_algs", Dau::<Vec<u8>>::from_sec_algs(algs).ok().map(V::Dau)));
+                out.push(("Dau::from_octets", Dau::from_octets(d.clone()).ok().map(V::Dau)));
+                out.push(("Dau::from_slice", Dau::from_slice(&d).ok()
+                    .map(|x| V::Dau(Dau::from_octets(x.as_slice().to_vec()).unwrap()))));
+            }
+            "DHU" => {
+                let algs = algs_of(a);
+                let d = bytes_of(&a["algs"]);
+                out.push(("Dhu::from_sec_algs", Dhu::<Vec<u8>>::from_sec_algs(algs).ok().map(V::Dhu)));
+                out.push(("Dhu::from_octets", Dhu::from_octets(d).ok().map(V::Dhu)));
+            }
+            "N3U" => {
+                let algs = algs_of(a);
+                let d = bytes_of(&a["algs"]);
+                out.push(("N3u::from_sec_algs", N3u::<Vec<u8>>::from_sec_algs(algs).ok().map(V::N3u)));
+                out.push(("N3u::from_octets", N3u::from_octets(d).ok().map(V::N3u)));
+            }
+            "ECS" => {
+                let (src, scope, addr) = (u8_of(&a["src"]), u8_of(&a["scope"]), addr_of(a));
+                out.push(("ClientSubnet::new", guarded(|| Some(V::ClientSubnet(ClientSubnet::new(src, scope, addr))))));
+            }
+            "EXPIRE" => {
+                let secs = if a["some"].as_bool().unwrap() {
+                    let b = bytes_of(&a["secs"]);
+                    Some(u32::from_be_bytes([b[0], b[1], b[2], b[3]]))
+                } else {
+                    None
+                };
+                out.push(("Expire::new", Some(V::Expire(Expire::new(secs)))));
+            }
+            "COOKIE" => {
+                let mut c = [0u8; 8];
+                c.copy_from_slice(&bytes_of(&a["client"]));
+                let s = bytes_of(&a["server"]);
+                let some = a["some"].as_bool().unwrap();
+                out.push(("Cookie::new(ClientCookie::from_octets, ServerCookie::from_octets)", guarded(|| {
+                    let server = if some { Some(ServerCookie::from_octets(&s)) } else { None };
+                    Some(V::Cookie(Cookie::new(ClientCookie::from_octets(c), server)))
+                })));
+                if some && s.len() == 16 {
+                    out.push(("Cookie::new(ClientCookie::from, StandardServerCookie::new)", guarded(|| {
+                        let std = StandardServerCookie::new(
+                            s[0], [s[1], s[2], s[3]],
+                            Serial::from(u32::from_be_bytes([s[4], s[5], s[6], s[7]])),
+                            [s[8], s[9], s[10], s[11], s[12], s[13], s[14], s[15]]);
+                        Some(V::Cookie(Cookie::new(ClientCookie::from(c), Some(ServerCookie::from(std)))))
+                    })));
+                }
+            }
+            "KEEPALIVE" => {
+                let t = a["t"].as_u64().unwrap();
+                let sub = a["sub"].as_u64().unwrap();
+                if !a["some"].as_bool().unwrap() {
+                    out.push(("TcpKeepalive::new(None)", Some(V::TcpKeepalive(TcpKeepalive::new(None)))));
+                } else {
+                    if sub == 0 && t <= 65535 {
+                        out.push(("TcpKeepalive::new(IdleTimeout::from(u16))",
+                            Some(V::TcpKeepalive(TcpKeepalive::new(Some(IdleTimeout::from(t as u16)))))));
+                    }
+                    out.push(("TcpKeepalive::new(IdleTimeout::try_from(Duration))",
+                        IdleTimeout::try_from(Duration::from_millis(t * 100 + sub)).ok()
+                            .map(|x| V::TcpKeepalive(TcpKeepalive::new(Some(x))))));
+                    out.push(("IdleTimeout::try_from(Duration::new)",
+                        IdleTimeout::try_from(Duration::new(t / 10, ((t % 10) * 100 + sub) as u32 * 1_000_000 + 999_999)).ok()
+                            .map(|x| V::TcpKeepalive(TcpKeepalive::new(Some(x))))));
+                }
+            }
+            "CHAIN" => {
+                let n = name_of(a);
+                out.push(("Chain::new", Some(V::Chain(Chain::new(n.clone())))));
+                out.push(("Chain::new_ref", Some(V::Chain(Chain::new(Chain::new_ref(&n).start().clone())))));
+            }
+            "KEYTAG" => {
+                let d = bytes_of(&a["data"]);
+                out.push(("KeyTag::from_octets", KeyTag::from_octets(d.clone()).ok().map(V::KeyTag)));
+                out.push(("KeyTag::from_slice", KeyTag::from_slice(&d).ok()
+                    .map(|x| V::KeyTag(KeyTag::from_octets(x.as_slice().to_vec()).unwrap()))));
+            }
+            "EDE" => {
+                let code = ExtendedErrorCode::from_int(a["code"].as_u64().unwrap() as u16);
+                let text = utf8(a);
+                out.push(("ExtendedError::new", ExtendedError::new(code, Some(text.clone())).ok().map(V::ExtendedError)));
+                out.push(("ExtendedError::new_with_str",
+                    ExtendedError::<Vec<u8>>::new_with_str(code, text.as_str()).ok().map(V::ExtendedError)));
+                out.push(("ExtendedError::try_from((code, text))",
+                    ExtendedError::try_from((code, text.clone())).ok().map(V::ExtendedError)));
+                let mut e = ExtendedError::<Vec<u8>>::from(code.to_int());
+                let e2 = ExtendedError::<Vec<u8>>::from(code);
+                if text.is_empty() {
+                    out.push(("ExtendedError::from(u16)", Some(V::ExtendedError(e.clone()))));
+                    out.push(("ExtendedError::from(code)", Some(V::ExtendedError(e2))));
+                    out.push(("ExtendedError::new(code, None)", ExtendedError::new(code, None).ok().map(V::ExtendedError)));
+                }
+                if text.len() + 2 <= 65535 {
+                    e.set_text(text);
+                    out.push(("ExtendedError::from(u16) + set_text", Some(V::ExtendedError(e))));
+                }
+            }
+            _ => {}
+        }
+        out
+    }
+
+    /// built == read back, where the option type offers an equality
+    fn same_value(a: &V, b: &AllOptData<&[u8], Name<&[u8]>>) -> Option<bool> {
+        Some(match (a, b) {
+            (AllOptData::Nsid(x), AllOptData::Nsid(y)) => x == y,
+            (AllOptData::Dau(x), AllOptData::Dau(y)) => x == y,
+            (AllOptData::Dhu(x), AllOptData::Dhu(y)) => x == y,
+            (AllOptData::N3u(x), AllOptData::N3u(y)) => x == y,
+            (AllOptData::ClientSubnet(x), AllOptData::ClientSubnet(y)) => x == y,
+            (AllOptData::Expire(x), AllOptData::Expire(y)) => x == y,
+            (AllOptData::Cookie(x), AllOptData::Cookie(y)) => x == y,
+            (AllOptData::TcpKeepalive(x), AllOptData::TcpKeepalive(y)) => x == y,
+            (AllOptData::Chain(x), AllOptData::Chain(y)) => x == y,
+            (AllOptData::KeyTag(x), AllOptData::KeyTag(y)) => x == y,
+            (AllOptData::ExtendedError(x), AllOptData::ExtendedError(y)) => {
+                // RFC 8914: an empty EXTRA-TEXT and none are one value; the
+                // library's Some("") / None distinction is not judged
+                if x.text_slice().map(|t| t.is_empty()).unwrap_or(false) {
+                    return None;
+                }
+                x == y
+            }
+            (AllOptData::Padding(_), AllOptData::Padding(_)) => return None,
+            _ => false,
+        })
+    }
+
+    macro_rules! with_concrete {
+        ($v:expr, $x:ident => $e:expr) => {
+            match $v {
+                AllOptData::Nsid($x) => $e,
+                AllOptData::Dau($x) => $e,
+                AllOptData::Dhu($x) => $e,
+                AllOptData::N3u($x) => $e,
+                AllOptData::ClientSubnet($x) => $e,
+                AllOptData::Expire($x) => $e,
+                AllOptData::Cookie($x) => $e,
+                AllOptData::TcpKeepalive($x) => $e,
+                AllOptData::Padding($x) => $e,
+                AllOptData::Chain($x) => $e,
+                AllOptData::KeyTag($x) => $e,
+                AllOptData::ExtendedError($x) => $e,
+                _ => unreachable!(),
+            }
+        };
+    }
+
+    /// The OPT RDATA of a message whose OPT record was written by `f`.
+    fn via_builder(
+        f: impl FnOnce(&mut domain::base::message_builder::OptBuilder<'_, Vec<u8>>),
+    ) -> Result<Vec<u8>, String> {
+        let mut add = MessageBuilder::new_vec().additional();
+        add.opt(|o| {
+            f(o);
+            Ok(())
+        })
+        .map_err(|e| e.to_string())?;
+        Ok(add.finish())
+    }
+
+    /// The typed push of the message builder for this value, if it has one
+    /// (the arguments are handed over again: the builder constructs the
+    /// value itself).  Returns false if the builder refused.
+    fn typed_push(
+        o: &mut domain::base::message_builder::OptBuilder<'_, Vec<u8>>,
+        a: &Value,
+        v: &V,
+    ) -> bool {
+        match v {
+            AllOptData::Nsid(x) => {
+                if x.as_slice().is_empty() {
+                    o.client_nsid().is_ok()
+                } else {
+                    o.nsid(x.as_slice()).is_ok()
+                }
+            }
+            AllOptData::Dau(_) => o.dau(&algs_of(a)).is_ok(),
+            AllOptData::Dhu(_) => o.dhu(&algs_of(a)).is_ok(),
+            AllOptData::N3u(_) => o.n3u(&algs_of(a)).is_ok(),
+            AllOptData::ClientSubnet(_) => {
+                o.client_subnet(u8_of(&a["src"]), u8_of(&a["scope"]), addr_of(a)).is_ok()
+            }
+            AllOptData::Expire(x) => o.expire(x.expire()).is_ok(),
+            AllOptData::Cookie(x) => o.cookie(x.clone()).is_ok(),
+            AllOptData::TcpKeepalive(x) => o.tcp_keepalive(x.timeout()).is_ok(),
+            AllOptData::Padding(x) => {
+                if x.as_slice().iter().all(|b| *b == 0) {
+                    o.padding(x.as_slice().len() as u16).is_ok()
+                } else {
+                    o.push(x).is_ok()
+                }
+            }
+            AllOptData::Chain(x) => o.chain(x.start()).is_ok(),
+            AllOptData::KeyTag(x) => o.key_tag(x).is_ok(),
+            AllOptData::ExtendedError(x) => {
+                let text = utf8(a);
+                if text.is_empty() && x.text_slice().is_none() {
+                    o.extended_error::<Vec<u8>>(x.code(), None).is_ok()
+                } else {
+                    o.extended_error(x.code(), Some(&text)).is_ok()
+                }
+            }
+            _ => false,
+        }
+    }
+
+    /// Random constructor arguments for one option (I->S recorder): the
+    /// whole argument space, not only what the constructors accept.
+    pub fn random_args(g: &mut super::gen::Gen) -> Value {
+        let kind = *g.rng.pick(&KINDS);
+        let kind = if g.rng.chance(1, 3) { "ECS" } else { kind };
+        let any_len = |g: &mut super::gen::Gen, small: u64, big: u64| -> usize {
+            match g.rng.below(8) {
+                0 => 0,
+                1 => g.rng.below(big + 1) as usize,
+                _ => g.rng.below(small + 1) as usize,
+            }
+        };
+        match kind {
+            "NSID" => {
+                let n = any_len(g, 24, 2000);
+                json!({"o": "NSID", "data": g.octets(n)})
+            }
+            "PADDING" => {
+                let n = any_len(g, 40, 1500);
+                let d = if g.rng.chance(3, 4) { vec![0u8; n] } else { g.octets(n) };
+                json!({"o": "PADDING", "data": d})
+            }
+            "DAU" | "DHU" | "N3U" => {
+                let n = any_len(g, 9, 300);
+                json!({"o": kind, "algs": g.rng.bytes(n)})
+            }
+            "ECS" => {
+                let fam = 1 + g.rng.below(2);
+                let bits = if fam == 1 { 32 } else { 128 };
+                let len = |g: &mut super::gen::Gen| match g.rng.below(6) {
+                    0 => 0,
+                    1 => bits,
+                    2 => g.rng.below(256),
+                    3 => 8 * g.rng.below(bits / 8 + 1),
+                    _ => g.rng.below(bits + 1),
+                };
+                let (src, scope) = (len(g), len(g));
+                let n = (bits / 8) as usize;
+                let addr = match g.rng.below(4) {
+                    0 => vec![255u8; n],
+                    1 => {
+                        let mut a = vec![0u8; n];
+                        let j = g.rng.below(bits) as usize;
+                        a[j / 8] = 0x80 >> (j % 8);
+                        a
+                    }
+                    _ => g.rng.bytes(n),
+                };
+                json!({"o": "ECS", "fam": fam, "src": src, "scope": scope, "addr": addr})
+            }
+            "EXPIRE" => {
+                let some = g.rng.chance(3, 4);
+                let secs = if some { g.rng.bytes(4) } else { vec![0; 4] };
+                json!({"o": "EXPIRE", "some": some, "secs": secs})
+            }
+            "COOKIE" => {
+                let some = g.rng.chance(3, 4);
+                let n = if some { g.rng.below(41) as usize } else { 0 };
+                json!({"o": "COOKIE", "client": g.rng.bytes(8), "some": some, "server": g.rng.bytes(n)})
+            }
+            "KEEPALIVE" => {
+                let some = g.rng.chance(4, 5);
+                let t = if !some {
+                    0
+                } else {
+                    match g.rng.below(5) {
+                        0 => 65535,
+                        1 => 65536 + g.rng.below(100000),
+                        _ => g.rng.below(65536),
+                    }
+                };
+                let sub = if some && g.rng.chance(1, 2) { g.rng.below(100) } else { 0 };
+                json!({"o": "KEEPALIVE", "some": some, "t": t, "sub": sub})
+            }
+            "CHAIN" => {
+                let w = g.name();
+                let mut labels: Vec<Vec<u8>> = vec![];
+                let mut p = 0;
+                while w[p] != 0 {
+                    labels.push(w[p + 1..p + 1 + w[p] as usize].to_vec());
+                    p += 1 + w[p] as usize;
+                }
+                json!({"o": "CHAIN", "name": labels})
+            }
+            "KEYTAG" => {
+                let n = any_len(g, 11, 400);
+                json!({"o": "KEYTAG", "data": g.rng.bytes(n)})
+            }
+            _ => {
+                let mut text = String::new();
+                let n = any_len(g, 30, 400);
+                while text.len() < n {
+                    text.push(match g.rng.below(6) {
+                        0 => char::from_u32(0xA0 + g.rng.below(0x700) as u32).unwrap_or('x'),
+                        1 => char::from_u32(0x4E00 + g.rng.below(0x1000) as u32).unwrap_or('y'),
+                        2 => char::from_u32(0x1F300 + g.rng.below(0x100) as u32).unwrap_or('z'),
+                        _ => (b' ' + g.rng.below(95) as u8) as char,
+                    });
+                }
+                let code = match g.rng.below(3) {
+                    0 => g.rng.below(30),
+                    1 => 49152 + g.rng.below(16384),
+                    _ => g.rng.below(65536),
+                };
+                json!({"o": "EDE", "code": code, "text": text.as_bytes()})
+            }
+        }
+    }
+
+    /// One OPT record assembled from constructor arguments, through every
+    /// route, and read back.
+    pub fn observe_optbuild(pushes: &[Value]) -> Value {
+        let mut issues: Vec<String> = vec![];
+        let mut steps: Vec<Value> = vec![];
+        let mut built: Vec<(Value, V)> = vec![];
+        for a in pushes {
+            let cons = constructions(a);
+            let mut first: Option<(Value, Vec<u8>, u16, V)> = None;
+            let mut disagree = false;
+            let accepted = cons.iter().filter(|(_, r)| r.is_some()).count();
+            if accepted != 0 && accepted != cons.len() {
+                disagree = true;
+            }
+            for (what, r) in cons {
+                if let Some(v) = r {
+                    let vw = view(&v, &mut issues);
+                    let (d, l) = with_concrete!(&v, x => data_of(x));
+                    // the same through the enum
+                    if data_of(&v) != (d.clone(), l) {
+                        issues.push(format!("{what}: AllOptData composes differently from the option type"));
+                    }
+                    let code = with_concrete!(&v, x => OptData::code(x));
+                    if code != v.code() {
+                        issues.push(format!("{what}: AllOptData reports another option code"));
+                    }
+                    match &first {
+                        None => first = Some((vw, d, l, v)),
+                        Some((vw0, d0, l0, _)) => {
+                            if *vw0 != vw || *d0 != d || *l0 != l {
+                                issues.push(format!("{what}: constructs another value than the first constructor"));
+                            }
+                        }
+                    }
+                }
+            }
+            match first {
+                None => steps.push(json!({"refused": true})),
+                Some((vw, d, l, v)) => {
+                    let mut st = json!({"built": vw, "data": d, "len": l});
+                    if disagree {
+                        st["disagree"] = json!(true);
+                    }
+                    steps.push(st);
+                    built.push((a.clone(), v));
+                }
+            }
+        }
+
+        // the record, through every route
+        let mut rdatas: Vec<(&str, Vec<u8>)> = vec![];
+        {
+            let mut opt = Opt::<Vec<u8>>::empty();
+            let mut ok = true;
+            for (_, v) in &built {
+                ok &= with_concrete!(v, x => opt.push(x)).is_ok();
+            }
+            if !ok {
+                issues.push("Opt::push refused an option".into());
+            }
+            rdatas.push(("Opt::push", compose_plain(&opt)));
+            let mut rec = OptRecord::<Vec<u8>>::default();
+            for (_, v) in &built {
+                if rec.push(v).is_err() {
+                    issues.push("OptRecord::push refused an option".into());
+                }
+            }
+            rdatas.push(("OptRecord::push(AllOptData)", compose_plain(rec.opt())));
+        }
+        let mut msgs: Vec<(&str, Vec<u8>)> = vec![];
+        for route in ["OptBuilder typed", "OptBuilder::push", "OptBuilder::push(AllOptData)"] {
+            let mut refused = false;
+            let m = via_builder(|o| {
+                for (a, v) in &built {
+                    let ok = match route {
+                        "OptBuilder typed" => typed_push(o, a, v),
+                        "OptBuilder::push" => with_concrete!(v, x => o.push(x)).is_ok(),
+                        _ => o.push(v).is_ok(),
+                    };
+                    refused |= !ok;
+                }
+            });
+            if refused {
+                issues.push(format!("{route}: an option was refused"));
+            }
+            match m {
+                Ok(m) => msgs.push((route, m)),
+                Err(e) => issues.push(format!("{route}: no OPT record ({e})")),
+            }
+        }
+        for (route, m) in &msgs {
+            match Message::from_slice(m).ok().and_then(|m| m.opt().map(|r| compose_plain(r.opt()))) {
+                Some(rd) => rdatas.push((route, rd)),
+                None => issues.push(format!("{route}: message has no readable OPT record")),
+            }
+        }
+        let rdata = rdatas.first().map(|x| x.1.clone()).unwrap_or_default();
+        for (route, rd) in &rdatas {
+            if *rd != rdata {
+                issues.push(format!("{route}: OPT RDATA differs from Opt::push"));
+            }
+        }
+
+        // reading back (from the message the typed builder methods wrote)
+        let mut iter: Vec<Value> = vec![];
+        let mut firsts: Vec<Value> = vec![];
+        let mut rd = json!(null);
+        if let Some((_, m)) = msgs.first() {
+            let msg = Message::from_slice(m).unwrap();
+            if let Some(rec) = msg.opt() {
+                let opt = rec.opt();
+                let mut unreadable = false;
+                let mut parsed = vec![];
+                for o in opt.iter::<AllOptData<_, _>>() {
+                    match o {
+                        Ok(o) => {
+                            iter.push(view(&o, &mut issues));
+                            parsed.push(Some(o));
+                        }
+                        Err(_) => {
+                            iter.push(json!({"o": "unreadable"}));
+                            parsed.push(None);
+                            unreadable = true;
+                            break;
+                        }
+                    }
+                }
+                if unreadable {
+                    // what the walk and the getters do after an option that
+                    // cannot be read is not judged
+                    issues.push("unreadable".into());
+                }
+                if parsed.len() == built.len() {
+                    for (i, p) in parsed.iter().enumerate() {
+                        if let Some(p) = p {
+                            if same_value(&built[i].1, p) == Some(false) {
+                                issues.push(format!("option {}: value read back compares unequal (==)", i + 1));
+                            }
+                        }
+                    }
+                }
+                // typed iteration and the first-of-a-kind getters
+                let judged = !unreadable;
+                macro_rules! kind {
+                    ($name:expr, $variant:ident, $ty:ty, $getter:expr) => {if judged {
+                        let all: Vec<Value> =
+                            iter.iter().filter(|w| w["o"] == $name).cloned().collect();
+                        let mut typed: Vec<Value> = vec![];
+                        for x in opt.iter::<$ty>() {
+                            match x {
+                                Ok(x) => typed.push(view::<&[u8], Name<&[u8]>>(&AllOptData::$variant(x), &mut issues)),
+                                Err(_) => typed.push(json!({"o": "unreadable"})),
+                            }
+                        }
+                        let readable: Vec<Value> = typed.iter().filter(|w| w["o"] != "unreadable").cloned().collect();
+                        if readable != all {
+                            issues.push(format!("{}: typed iteration differs from the AllOptData walk", $name));
+                        }
+                        let g: Option<$ty> = $getter;
+                        let f: Option<$ty> = opt.first::<$ty>();
+                        let gv = g.map(|x| view::<&[u8], Name<&[u8]>>(&AllOptData::$variant(x), &mut issues));
+                        let fv = f.map(|x| view::<&[u8], Name<&[u8]>>(&AllOptData::$variant(x), &mut issues));
+                        if gv != fv {
+                            issues.push(format!("{}: getter differs from first()", $name));
+                        }
+                        if let Some(w) = gv {
+                            firsts.push(w);
+                        }
+                    }};
+                }
+                kind!("NSID", Nsid, Nsid<&[u8]>, opt.nsid());
+                kind!("DAU", Dau, Dau<&[u8]>, opt.dau());
+                kind!("DHU", Dhu, Dhu<&[u8]>, opt.dhu());
+                kind!("N3U", N3u, N3u<&[u8]>, opt.n3u());
+                kind!("ECS", ClientSubnet, ClientSubnet, opt.client_subnet());
+                kind!("EXPIRE", Expire, Expire, opt.expire());
+                kind!("COOKIE", Cookie, Cookie, opt.cookie());
+                kind!("KEEPALIVE", TcpKeepalive, TcpKeepalive, opt.tcp_keepalive());
+                kind!("PADDING", Padding, Padding<&[u8]>, opt.first::<Padding<&[u8]>>());
+                kind!("CHAIN", Chain, Chain<Name<&[u8]>>, opt.chain());
+                kind!("KEYTAG", KeyTag, KeyTag<&[u8]>, opt.key_tag());
+                kind!("EDE", ExtendedError, ExtendedError<&[u8]>, opt.extended_error());
+            } else {
+                issues.push("message has no OPT record".into());
+            }
+            // value -> compose -> parse as a whole record, like every other type
+            let one = one_record_msg(&[1, b'x', 2, b'Y', b'z', 0], 41, &rdata);
+            rd = observe_rdata(&one, false, true);
+            if let Some(arr) = rd.get_mut("issues").and_then(|x| x.as_array_mut()) {
+                // the option walk names the option code; the deviation is one class
+                let mut v: Vec<Value> = arr.iter().map(|s| {
+                    if s.as_str().map(|t| t.ends_with("well-formed option data rejected")).unwrap_or(false) {
+                        json!("unreadable")
+                    } else {
+                        s.clone()
+                    }
+                }).collect();
+                v.dedup();
+                *arr = v;
+            }
+        }
+        issues.sort();
+        issues.dedup();
+        json!({"steps": steps, "rdata": rdata, "iter": iter, "first": firsts, "issues": issues, "rd": rd})
+    }
+}
+
+//============================================================================
 // random record data by layout (I->S recorders)
 //============================================================================
 
@@ -1483,6 +2211,16 @@ pub mod gen {
                     if self.rng.chance(1, 2) { vec![] } else { self.octets(2) }
                 }
                 "PADDING" => vec![0; self.small_len(468)],
+                // (an even number of algorithms: lists of odd length are
+                // covered, with the deviation they expose, by the optbuild events)
+                "DAU" | "DHU" | "N3U" | "KEYTAG" => {
+                    let n = 2 * self.small_len(12);
+                    self.octets(n)
+                }
+                "EXPIRE" => {
+                    if self.rng.chance(1, 3) { vec![] } else { self.octets(4) }
+                }
+                "CHAIN" => self.name(),
                 "EDE" => {
                     let mut v = self.octets(2);
                     let n = self.small_len(40);
